@@ -59,7 +59,12 @@ func VerifC18Responsible() {
 	var treeIds []string
 	for i := 0; i < n; i++ {
 		var types []NodeType
-		switch rt.Choose(3) {
+		switch rt.Choose(5) {
+		case 3: // a sync node that also serves the fileV2 ring (seed C18-k): still a sync node
+			types = []NodeType{NodeTypeFileV2, NodeTypeTree}
+			isTree[i] = true
+		case 4: // a pure fileV2 node: never a sync node
+			types = []NodeType{NodeTypeFileV2, NodeTypeNamingNode, NodeTypePaymentProcessingNode}
 		case 0:
 			types = []NodeType{NodeTypeTree}
 			isTree[i] = true
